@@ -384,3 +384,44 @@ def unit_small_accessors(timeout_ms=10000):
     return run_unit("number_ordered_form:operators/terms/__bool__/_eval_is_zero", harness,
                     functions=[(MODULE, "NumberOrderedForm.operators"), (MODULE, "NumberOrderedForm.terms"), (MODULE, "NumberOrderedForm.__bool__"), (MODULE, "NumberOrderedForm._eval_is_zero")],
                     timeout_ms=timeout_ms)
+
+
+def unit_applyfunc(timeout_ms=10000):
+    """NumberOrderedForm.applyfunc(func, *args, **kwargs): a form on the SAME operators whose coefficient at every power tuple is func(old coefficient, *args, **kwargs) - the powers are
+    untouched, no term is added or dropped, the result is built without re-validation."""
+    node = frontend.find(MODULE, "NumberOrderedForm.applyfunc")
+
+    def harness(eng):
+        OPS = T("operators")
+        c = [T("c0"), T("c1"), T("c2")]
+        pws = [STup([1, 0]), STup([0, -1]), STup([0, 0])]
+        terms = STup([STup([p, x]) for p, x in zip(pws, c)])
+        built = []
+
+        class Self(Model):
+            def m_getattr(s, e, name):
+                if name == "args":
+                    return STup([OPS, terms])
+                if name == "operators":
+                    return OPS
+                raise Unsupported(f"self.{name}")
+
+        def cls_call(e, o, t, validate=True):
+            built.append((o, t, validate))
+            return T("new-form")
+        extra, kw = T("extra-arg"), T("kw-value")
+        func = Builtin("func", lambda e, x, *a, **k: T("f", x, *a, *[T("kw", T(n), v) for n, v in sorted(k.items())]))
+        eng.globals.update({"type": Builtin("type", lambda e, x: Builtin("cls", cls_call))})
+        res = eng.call(Closure(node, Env(None, {}), "applyfunc"), [Self(), func, extra], {"option": kw})
+        ok = len(built) == 1 and isinstance(res, T) and res.head == "new-form" and built[0][0] is OPS and built[0][2] is False and isinstance(built[0][1], dict)
+        eng.oblige("one-form-on-the-same-operators-built-without-revalidation", z3.BoolVal(bool(ok)))
+        if not ok:
+            return
+        d = built[0][1]
+        want_keys = [(1, 0), (0, -1), (0, 0)]
+        eng.oblige("same-power-tuples", z3.BoolVal(sorted(d) == sorted(want_keys)), detail=repr(sorted(d)))
+        for k_, x in zip(want_keys, c):
+            v = d.get(k_)
+            good = isinstance(v, T) and v.head == "f" and len(v.args) == 3 and v.args[0] is x and v.args[1] is extra and isinstance(v.args[2], T) and v.args[2].head == "kw" and v.args[2].args[1] is kw
+            eng.oblige(f"coefficient-at-{k_}-is-func(old, *args, **kwargs)", z3.BoolVal(bool(good)), detail=repr(v))
+    return run_unit("number_ordered_form:applyfunc", harness, functions=[(MODULE, "NumberOrderedForm.applyfunc")], timeout_ms=timeout_ms)
